@@ -11,6 +11,7 @@ side-chain torsions use the documented atoms.
                on generated protein topologies.
 """
 import ast
+import json
 import math
 import os
 import re
@@ -22,7 +23,7 @@ from common import REPO, cz, cnat, clist, cstr
 
 LEVEL = "proof"
 THEOREMS = "Props/C07.v"
-EXTRA_TARGETS = ("Gen/GeomFormulas.vo", "Geom/Periodic.vo")
+EXTRA_TARGETS = ("Gen/GeomFormulas.vo", "Geom/Periodic.vo", "Gen/GeomGlue.vo", "Geom/Glue.vo")
 EXTS = ["_geometry"]
 
 ANGLE_H = "mdtraj/geometry/src/kernels/anglekernels.h"
@@ -522,6 +523,73 @@ class PyEval:
         return result
 
 
+# =====================================================================================
+#  Python front ends compute_angles / compute_dihedrals (ast, statement by statement; fail closed)
+# =====================================================================================
+def translate_front(tree, fname, idx_arg, kernel, pyfn):
+    """Reads the whole body of a front end and returns its description (width, range test, `periodic` test,
+    orthorhombic test).  Every statement must have the anchored form; anything else raises."""
+    fn = py_function(tree, fname)
+    if [a.arg for a in fn.args.args] != ["traj", idx_arg, "periodic", "opt"] or [ast.unparse(d) for d in fn.args.defaults] != ["True", "True"]:
+        raise TranslateError("%s: unexpected signature" % fname)
+    body = [st for st in fn.body if not (isinstance(st, ast.Expr) and isinstance(st.value, ast.Constant) and isinstance(st.value.value, str))]
+    src = [ast.unparse(st) for st in body]
+    if len(src) != 8:
+        raise TranslateError("%s: %d statements instead of 8" % (fname, len(src)))
+
+    def need(k, pattern):
+        m = re.fullmatch(pattern, src[k], re.S)
+        if not m:
+            raise TranslateError("%s: statement %d outside the grammar: %s" % (fname, k, src[k][:200]))
+        return m
+    need(0, r"xyz = ensure_type\(traj\.xyz, dtype=np\.float32, ndim=3, name='traj\.xyz', shape=\(None, None, 3\), warn_on_cast=False\)")
+    m = need(1, r"(\w+) = ensure_type\(%s, dtype=np\.int32, ndim=2, name='%s', shape=\(None, (\d+)\), warn_on_cast=False\)" % (idx_arg, idx_arg))
+    V, width = m.group(1), int(m.group(2))
+    m = need(2, r"if not np\.all\(np\.logical_and\(%s (<=|<) traj\.n_atoms, %s (>=|>) (-?\d+)\)\):\n    raise ValueError\(.*\)" % (V, V))
+    upper_strict, lower_incl, lower = m.group(1) == "<", m.group(2) == ">=", int(m.group(3))
+    need(3, r"if len\(%s\) == 0:\n    return np\.zeros\(\(len\(xyz\), 0\), dtype=np\.float32\)" % V)
+    need(4, r"out = np\.zeros\(\(xyz\.shape\[0\], %s\.shape\[0\]\), dtype=np\.float32\)" % V)
+    m = need(5, r"if (periodic is True|periodic) and traj\._have_unitcell:\n"
+                r"    box = ensure_type\(traj\.unitcell_vectors, dtype=np\.float32, ndim=3, name='unitcell_vectors', shape=\(len\(xyz\), 3, 3\)(?:, warn_on_cast=False)?\)\n"
+                r"    if opt:\n"
+                r"        orthogonal = ([^\n]+)\n"
+                r"        _geometry\.%s_mic\(xyz, %s, box\.transpose\(0, 2, 1\)\.copy\(\), out, orthogonal\)\n"
+                r"        return out\n"
+                r"    else:\n"
+                r"        %s\(traj, %s, periodic, out\)\n"
+                r"        return out" % (kernel, V, pyfn, V))
+    flag = "TestIsTrue" if m.group(1) == "periodic is True" else "TestTruth"
+    oexpr = m.group(2)
+    if oexpr == "np.allclose(traj.unitcell_angles, 90)":
+        ortho = "OrthoAllclose"
+    elif oexpr in ("distance._is_orthorhombic(box)", "_is_orthorhombic(box)"):
+        ortho = "OrthoExact"
+    else:
+        raise TranslateError("%s: orthorhombic test outside the grammar: %s" % (fname, oexpr))
+    need(6, r"if opt:\n    _geometry\.%s\(xyz, %s, out\)\nelse:\n    %s\(traj, %s, periodic, out\)" % (kernel, V, pyfn, V))
+    need(7, r"return out")
+    return {"width": width, "lower": lower, "lower_incl": lower_incl, "upper_strict": upper_strict, "flag": flag, "ortho": ortho}
+
+
+def emit_front(name, d):
+    return "Definition %s : front := mkfront %d %s %s %s %s %s." % (
+        name, d["width"], cz(d["lower"]), "true" if d["lower_incl"] else "false", "true" if d["upper_strict"] else "false",
+        d["flag"], d["ortho"])
+
+
+def translate_fronts(read):
+    atree = ast.parse(read(ANGLE_PY))
+    dtree = ast.parse(read(DIHED_PY))
+    fa = translate_front(atree, "compute_angles", "angle_indices", "_angle", "_angle")
+    fd = translate_front(dtree, "compute_dihedrals", "indices", "_dihedral", "_dihedral")
+    text = "\n".join([
+        "(* GENERATED by harness/props/C07.py:translate from %s, %s." % (ANGLE_PY, DIHED_PY),
+        "   Do not edit: rewritten on every run when the source text changes. *)",
+        "From Coq Require Import ZArith.", "Require Import MD.Geom.GlueTypes.", "Local Open Scope Z_scope.",
+        emit_front("angles_front", fa), emit_front("dihedrals_front", fd)]) + "\n"
+    return text, {"angles": fa, "dihedrals": fd}
+
+
 TABLE_NAMES = ["PHI_ATOMS", "PSI_ATOMS", "OMEGA_ATOMS", "CHI1_ATOMS", "CHI2_ATOMS", "CHI3_ATOMS", "CHI4_ATOMS", "CHI5_ATOMS"]
 
 
@@ -622,8 +690,11 @@ def translate(ctx):
         with open(os.path.join(REPO, rel)) as fh:
             return fh.read()
     text, _info = translate_sources(read)
+    text2, fronts = translate_fronts(read)
     changed = ctx.write_gen("Gen/GeomFormulas.v", text)
-    ctx.notes.setdefault("coverage_extra", {})["translator"] = "ok (%s)" % ("regenerated" if changed else "unchanged")
+    changed2 = ctx.write_gen("Gen/GeomGlue.v", text2)
+    ctx.notes.setdefault("coverage_extra", {})["translator"] = "ok (%s)" % ("regenerated" if (changed or changed2) else "unchanged")
+    ctx.notes["coverage_extra"]["front_ends_as_read"] = fronts
 
 
 # =====================================================================================
@@ -638,6 +709,8 @@ RULE = ("geometry: atoms on a 2^-10 nm grid built as bonded chains (kinds random
         "D-amino acids, modified residues, lower case), caps ACE/NME, water/ion/ligand residues in between (one ligand with N/CA/C), "
         "random atom deletions, duplicated atom names; history axis: on one Topology object the calls are interleaved with in-place "
         "edits (atom/residue renames that add or remove a torsion, delete+insert keeping the counts, add_atom, new chain), compared after every edit; "
+        "front ends: index arrays with entries -1, n_atoms, +-2^31, wrong widths, empty; `periodic` as True/False/numpy.bool_/int x opt on molecules "
+        "split across faces; cells within/outside numpy.allclose(angles, 90) of orthorhombic with atoms 8-30 cells apart; "
         "distinct by hash of (recipe, op)")
 TRUSTED = ["harness/impl/geom_impl.py (builds Trajectory/Topology objects, calls the public API, returns raw arrays)",
            "harness/props/C07.py: translators (kernel statements by anchored patterns + expression parser; Python ast), "
@@ -1291,7 +1364,411 @@ def run_topo(ctx, cases):
                      expected="Gallina named_all evaluated on the edited topology", tags={"kind": "named_indices_after_edit"})
 
 
+# ------------------------------------------------------------------------------------------------
+#  the Python front ends: index validation, `periodic` as an arbitrary object, nearly orthorhombic cells
+FLAG_NAMES = {0: "True", 1: "False", 2: "numpy.True_", 3: "numpy.False_", 4: "1", 5: "0"}
+FLAG_MODEL = {0: 0, 1: 1, 2: 2, 3: 3, 4: 2, 5: 3}      # Glue.flag_of: PyTrue PyFalse PyTruthy PyFalsy
+FLAG_TRUTH = {0: True, 1: False, 2: True, 3: False, 4: True, 5: False}
+
+
+def build_front_cases(ctx):
+    rng = ctx.rng
+    quick = ctx.tier == "quick"
+    cases = []
+    # (1) validation: rows of the right and of a wrong width, indices below 0, at n_atoms, beyond; the empty array
+    for _ in range(60 if quick else 1500):
+        op = rng.choice(["angles", "dihedrals"])
+        w = 3 if op == "angles" else 4
+        n = rng.randint(w, 12)
+        u = rng.random()
+        if u < 0.08:
+            cases.append({"front": "validate", "op": op, "n": n, "F": rng.randint(1, 3), "empty_width": rng.choice([w, w, w - 1, w + 1])})
+            continue
+        width = w if u < 0.85 else rng.choice([w - 1, w + 1, 1])
+        rows = [[rng.randrange(n) for _ in range(width)] for _ in range(rng.randint(1, 5))]
+        if rng.random() < 0.6:
+            r_, c_ = rng.randrange(len(rows)), rng.randrange(width)
+            rows[r_][c_] = rng.choice([-1, n, n, n + 1, -n, n - 1, 0, 2 ** 31 - 1, -2 ** 31])
+        cases.append({"front": "validate", "op": op, "n": n, "F": rng.randint(1, 3), "rows": rows})
+    # (2) `periodic` handed over as True/False, numpy.bool_, int -- molecules split across cell faces, so that the
+    #     treatment of the cell is visible in the value
+    for _ in range(6 if quick else 120):
+        gen = {"kind": "split", "cell": rng.choice(["cubic", "ortho", "tric", "none"]), "n": rng.randint(5, 9), "F": rng.randint(1, 2), "m": 3,
+               "mirror": False, "seed": rng.randrange(1, 2 ** 31 - 1)}
+        if gen["cell"] == "none":
+            gen["kind"] = "random"
+        for op in ("angles", "dihedrals"):
+            cases.append({"front": "flag", "op": op, "gen": gen, "calls": [[o, c] for o in (True, False) for c in range(6)]})
+    # (3) cells within / just outside numpy.allclose(angles, 90) of orthorhombic, atoms up to 30 cells apart
+    for _ in range(6 if quick else 120):
+        dev = rng.choice([2e-4, 5e-4, 7e-4, 7e-4, 3e-3, 0.0])
+        gen = {"n": rng.randint(5, 8), "cells_apart": rng.randint(8, 30), "dev": dev,
+               "signs": [rng.choice([-1, 0, 1]) for _ in range(3)], "seed": rng.randrange(1, 2 ** 31 - 1)}
+        if dev and not any(gen["signs"]):
+            gen["signs"][rng.randrange(3)] = 1
+        for op in ("angles", "dihedrals"):
+            cases.append({"front": "nearortho", "op": op, "gen": gen, "calls": [[True, 0], [False, 0]]})
+    return cases
+
+
+def gen_nearortho(gen):
+    """float32 coordinates of a bonded chain whose atoms are moved by whole cells, lengths and angles of the cell"""
+    rs = np.random.RandomState(gen["seed"])
+    n = gen["n"]
+    L = np.array([rs.uniform(2.5, 4.0) for _ in range(3)], dtype=np.float32)
+    ang = np.array([90.0 + s * gen["dev"] for s in gen["signs"]], dtype=np.float32)
+    X = np.zeros((n, 3))
+    X[0] = rs.uniform(0.2, 2.0, 3)
+    for k in range(1, n):
+        d = rs.randn(3)
+        X[k] = X[k - 1] + d / np.linalg.norm(d) * rs.uniform(0.25, 0.6)
+    shifts = rs.randint(-gen["cells_apart"], gen["cells_apart"] + 1, size=(n, 3))
+    shifts[0] = 0
+    X = X + shifts * L.astype(np.float64)       # whole cells along the axes (the tilt is applied by the cell itself)
+    idx3 = [[k, k + 1, k + 2] for k in range(n - 2)][:4]
+    idx4 = [[k, k + 1, k + 2, k + 3] for k in range(n - 3)][:4]
+    return X[None].astype(np.float32), L[None], ang[None], idx3, idx4
+
+
+def to_common_ints(arrays):
+    """float32 arrays -> integer arrays in a common unit 2^-K (exact)"""
+    K = 0
+    for a in arrays:
+        for v in np.asarray(a, dtype=np.float64).ravel():
+            f = Fraction(float(v))
+            K = max(K, f.denominator.bit_length() - 1)
+    sc = 2 ** K
+    return [np.vectorize(lambda v: int(Fraction(float(v)) * sc), otypes=[object])(np.asarray(a, dtype=np.float64)) for a in arrays], K
+
+
+def mic_far(r, box):
+    """exact minimum image for separations of many cells: reduce with the lower-triangular cell, then brute force"""
+    a, b, c = box
+    r = list(r)
+    for vec_, comp in ((c, 2), (b, 1), (a, 0)):
+        k = int(round(Fraction(r[comp], vec_[comp])))
+        r = [r[i] - k * vec_[i] for i in range(3)]
+    return mic_exact(tuple(r), box)
+
+
+def mic_diag(r, box):
+    """what a kernel that reads only the diagonal of the cell matrix returns"""
+    out = []
+    for i in range(3):
+        Lk = box[i][i]
+        out.append(r[i] - Lk * int(math.floor(Fraction(r[i], Lk) + Fraction(1, 2))))
+    return tuple(out)
+
+
+def obs_of(kind, bv):
+    if kind == "dihedrals":
+        b1, b2, b3 = bv
+        return (det3(b1, b2, b3), idot(b1, b2) * idot(b2, b3) - idot(b1, b3) * idot(b2, b2), idot(b2, b2))
+    u, v = bv
+    return (idot(u, v), idot(u, u), idot(v, v))
+
+
+def value_of(kind, bv):
+    """(exact value, conditioning) of an angle/dihedral from integer bond vectors; None when degenerate"""
+    if kind == "dihedrals":
+        b1, b2, b3 = bv
+        B = idot(b2, b2)
+        n1sq = idot(b1, b1) * B - idot(b1, b2) ** 2
+        n2sq = B * idot(b3, b3) - idot(b2, b3) ** 2
+        if min(idot(b1, b1), B, idot(b3, b3)) == 0 or n1sq == 0 or n2sq == 0:
+            return None
+        T, p2, _ = obs_of(kind, bv)
+        s1 = math.sqrt(n1sq / (idot(b1, b1) * B))
+        s2 = math.sqrt(n2sq / (B * idot(b3, b3)))
+        return math.atan2(math.sqrt(B) * T, p2), s1 * s2
+    u, v = bv
+    N, D1, D2 = obs_of(kind, bv)
+    if D1 == 0 or D2 == 0:
+        return None
+    c = max(-1.0, min(1.0, N / math.sqrt(D1 * D2)))
+    return math.acos(c), max(math.sqrt(max(0.0, 1.0 - c * c)), 1e-3)
+
+
+def tuple_pairs(kind, tup):
+    return ([(tup[0], tup[1]), (tup[1], tup[2]), (tup[2], tup[3])] if kind == "dihedrals" else [(tup[1], tup[0]), (tup[1], tup[2])])
+
+
+def adiff(kind, a, b):
+    d = abs(a - b)
+    return min(d, 2 * math.pi - d) if kind == "dihedrals" else d
+
+
+def fronts_as_read():
+    try:
+        def read(rel):
+            with open(os.path.join(REPO, rel)) as fh:
+                return fh.read()
+        return translate_fronts(read)[1]
+    except Exception:
+        pass
+    # the translator could not read a front end (refactored source): attribute the two known defects by the bare
+    # presence of the offending expressions, so that a recorded finding is still recognised
+    out = {}
+    try:
+        for op, rel, fn in (("angles", ANGLE_PY, "compute_angles"), ("dihedrals", DIHED_PY, "compute_dihedrals")):
+            with open(os.path.join(REPO, rel)) as fh:
+                src = ast.unparse(py_function(ast.parse(fh.read()), fn))
+            out[op] = {"flag": "TestIsTrue" if "periodic is True" in src else "TestTruth",
+                       "ortho": "OrthoAllclose" if "np.allclose(traj.unitcell_angles, 90)" in src else "OrthoExact"}
+    except Exception:
+        return None
+    return out
+
+
+def run_front(ctx, cases):
+    notes = ctx.notes.setdefault("coverage_extra", {})
+    fr_read = fronts_as_read() or {}
+    stats = notes.setdefault("front_end_streams", {})
+    inp, payload, prep = {}, [], {}
+    for k, c in enumerate(cases):
+        if c["front"] == "validate":
+            e = {"id": k, "kind": "validate", "op": c["op"], "n": c["n"], "F": c["F"]}
+            if "rows" in c:
+                e["rows"] = c["rows"]
+            else:
+                e["empty_width"] = c["empty_width"]
+            payload.append(e)
+        elif c["front"] == "flag":
+            X, box, tri, quad = gen_geom(c["gen"])
+            idx = tri[:6] if c["op"] == "angles" else quad[:6]
+            prep[k] = (X, box, idx)
+            inp["f%d_xyz" % k] = (X.astype(np.float64) / UNIT).astype(np.float32)
+            if box is not None:
+                inp["f%d_box" % k] = (np.array(box, dtype=np.float64) / UNIT).astype(np.float32)
+            inp["f%d_idx" % k] = np.array(idx, dtype=np.int64)
+            payload.append({"id": k, "kind": "flag", "op": c["op"], "has_box": box is not None, "calls": c["calls"]})
+        else:
+            X, L, ang, idx3, idx4 = gen_nearortho(c["gen"])
+            idx = idx3 if c["op"] == "angles" else idx4
+            prep[k] = (X, L, ang, idx)
+            inp["f%d_xyz" % k], inp["f%d_lengths" % k], inp["f%d_angles" % k] = X, L, ang
+            inp["f%d_idx" % k] = np.array(idx, dtype=np.int64)
+            payload.append({"id": k, "kind": "nearortho", "op": c["op"], "calls": c["calls"]})
+    tag = "%d_%d" % (len(cases), ctx.rng.randrange(10 ** 9))
+    ipath = os.path.join(ctx.tmp, "fin_%s.npz" % tag)
+    opath = os.path.join(ctx.tmp, "fout_%s.npz" % tag)
+    np.savez(ipath, **inp)
+    res = ctx.run_impl("geom_impl.py", {"inputs": ipath, "outputs": opath, "geom": [], "topo": [], "front": payload})
+    out = dict(np.load(opath)) if os.path.exists(opath) else {}
+    errors = res.get("errors", {})
+    fronts = res.get("front", {})
+    val_cases, val_meta = [], []
+    path_cases, path_meta = [], []
+    api_cases, api_meta = [], []
+    for k, c in enumerate(cases):
+        rec = dict(c)
+        if "f%d" % k in errors or str(k) not in fronts:
+            ctx.count(rec, bucket="front/%s" % c["front"])
+            ctx.fail("the front-end runner failed", rec, observed=errors.get("f%d" % k), expected="a result", tags={"kind": "raises", "op": c["op"]})
+            continue
+        r = fronts[str(k)]
+        if c["front"] == "validate":
+            # ---- exact comparison of the outcome class with the Gallina model (Glue.validate on the description as read)
+            if r["status"] == "raise":
+                code = 2 if "must be between" in r["msg"] else (1 if r["exc"] == "ValueError" and ("must be shape" in r["msg"] or "must be ndim" in r["msg"]) else 9)
+            else:
+                code = 0
+            rows = c.get("rows", [])
+            w = 3 if c["op"] == "angles" else 4
+            good = all(len(row) == w for row in rows) and all(0 <= i < c["n"] for row in rows for i in row)
+            if "empty_width" in c:
+                good = c["empty_width"] == w
+                exp_model = None        # numpy's (0, w') array has no rows: the list model cannot see its width
+            else:
+                exp_model = code
+            bucket = "front/validate/%s/%s" % (c["op"], "accepted" if good else "rejected")
+            ctx.count(rec, nontrivial=True, bucket=bucket)
+            # property oracle (independent of the model): accepted iff well-formed; shape (F, len(rows)) when accepted
+            if good != (code == 0) or code == 9:
+                ctx.fail("compute_%s %s an index array that is %s" % (c["op"], "rejects" if good else "accepts", "valid" if good else "malformed or out of range"),
+                         rec, observed=r, expected="ValueError" if not good else "an array", tags={"kind": "index_validation", "op": c["op"]})
+            elif code == 0 and r["shape"] != [c["F"], len(rows)]:
+                ctx.fail("compute_%s returns an array of the wrong shape" % c["op"], rec, observed=r, expected=[c["F"], len(rows)],
+                         tags={"kind": "result_shape", "op": c["op"]})
+            if exp_model is not None:
+                val_cases.append(("(%s, %s, %s)" % ("true" if c["op"] == "dihedrals" else "false", cz(c["n"]),
+                                                    clist([clist([cz(i) for i in row]) for row in rows])), cz(exp_model)))
+                val_meta.append(k)
+            continue
+        if c["front"] == "flag":
+            X, box, idx = prep[k]
+            lmax = max(max(max(abs(v) for v in row) for row in bx) for bx in box) / UNIT if box else 0.0
+            all_ortho = bool(box) and all(bx[1][0] == 0 and bx[2][0] == 0 and bx[2][1] == 0 for bx in box)
+            for j, (opt, code) in enumerate(c["calls"]):
+                key = "f%d_c%d" % (k, j)
+                crec = {"front": "flag", "op": c["op"], "gen": c["gen"], "calls": [[opt, code]]}
+                bucket = "front/flag/%s/periodic=%s/opt=%s/%s" % (c["op"], FLAG_NAMES[code], opt, "cell" if box else "no-cell")
+                if key not in out:
+                    ctx.count(crec, bucket=bucket)
+                    ctx.fail("compute_%s raised on valid input" % c["op"], crec, observed=r.get("errors", {}).get("c%d" % j), expected="a value",
+                             tags={"kind": "raises", "op": c["op"]})
+                    continue
+                val = out[key]
+                seen = set()
+                for f in range(X.shape[0]):
+                    for ti, tup in enumerate(idx):
+                        prs = tuple_pairs(c["op"], tup)
+                        bv_p = bond_vectors(X[f], None, prs, False)
+                        bv_m = bond_vectors(X[f], box[f], prs, True) if box else bv_p
+                        if bv_m is None:
+                            continue
+                        vp, vm = value_of(c["op"], bv_p), value_of(c["op"], bv_m)
+                        if vp is None or vm is None:
+                            continue
+                        bmin = math.sqrt(min(idot(b, b) for b in bv_m + bv_p)) / UNIT
+                        tol = (C_DIH * EPS + 16 * EPS * (lmax + 4.0) / bmin) / min(vp[1], vm[1]) + 2 * EPS
+                        if tol > 0.05:
+                            continue
+                        got = float(val[f][ti])
+                        is_m, is_p = adiff(c["op"], got, vm[0]) <= tol, adiff(c["op"], got, vp[0]) <= tol
+                        discr = adiff(c["op"], vm[0], vp[0]) > 8 * tol
+                        ctx.count({"c": crec, "f": f, "t": tup}, nontrivial=discr, bucket=bucket)
+                        want_mic = FLAG_TRUTH[code] and box is not None
+                        if not (is_m if want_mic else is_p):
+                            seen.add("plain" if is_p else ("mic" if is_m else "neither"))
+                        elif discr:
+                            seen.add("as documented")
+                if seen - {"as documented"}:
+                    what = sorted(seen - {"as documented"})[0]
+                    ctx.fail("compute_%s does not follow the truth value of `periodic`: %s" % (c["op"], {
+                        "plain": "the cell is ignored although periodic is true", "mic": "minimum images are used although periodic is false",
+                        "neither": "the value is neither the periodic nor the non-periodic one"}[what]), crec,
+                        observed={"periodic": FLAG_NAMES[code], "opt": opt, "behaves": what}, expected="minimum-image bond vectors iff periodic is true and a cell is present",
+                        tags={"kind": "periodic_flag", "op": c["op"], "opt": bool(opt), "flag": FLAG_NAMES[code], "behaves": what,
+                              "explained_by": ("front_flag_is_true" if (fr_read.get(c["op"], {}).get("flag") == "TestIsTrue" and opt and what == "plain"
+                                                                        and code in (2, 4)) else None)})
+                # the model's path for these arguments, with the description read from the source (evaluated in Coq)
+                kinds = sorted(seen)
+                if len(kinds) == 1 and kinds[0] in ("as documented", "plain", "mic") and box is not None:
+                    want_mic = FLAG_TRUTH[code]
+                    impl_mic = want_mic if kinds[0] == "as documented" else (kinds[0] == "mic")
+                    path_cases.append(("(%s, %s, %s, (true, %s, %s))" % ("true" if c["op"] == "dihedrals" else "false", "true" if opt else "false",
+                                                                         cz(FLAG_MODEL[code]), "true" if all_ortho else "false", "true" if all_ortho else "false"),
+                                       impl_mic, all_ortho, opt))
+                    path_meta.append(crec)
+            continue
+        # ---- nearly orthorhombic cells
+        X, L, ang, idx = prep[k]
+        vec = out.get("f%d_vectors" % k)
+        if vec is None:
+            continue
+        (Xi, Bi), K = to_common_ints([X, vec])
+        unit = float(2 ** K)
+        box = [[int(v) for v in row] for row in Bi[0]]
+        if not (box[0][1] == 0 and box[0][2] == 0 and box[1][2] == 0):
+            notes["nearortho_cell_not_lower_triangular"] = notes.get("nearortho_cell_not_lower_triangular", 0) + 1
+            continue
+        exact_ortho = box[1][0] == 0 and box[2][0] == 0 and box[2][1] == 0
+        close = bool(np.all(np.abs(ang.astype(np.float64) - 90.0) <= 1e-8 + 1e-5 * 90.0))
+        margin = float(np.min(np.abs(np.abs(ang.astype(np.float64) - 90.0) - (1e-8 + 1e-5 * 90.0))))
+        if margin < 1e-4:
+            continue            # too close to the boundary of numpy.allclose to call
+        lmax = float(max(L[0]))
+        for j, (opt, code) in enumerate(c["calls"]):
+            key = "f%d_c%d" % (k, j)
+            crec = {"front": "nearortho", "op": c["op"], "gen": c["gen"], "calls": [[opt, code]]}
+            bucket = "front/nearortho/%s/opt=%s/%s" % (c["op"], opt, "exactly-orthorhombic" if exact_ortho else ("allclose" if close else "not-close"))
+            if key not in out:
+                ctx.count(crec, bucket=bucket)
+                ctx.fail("compute_%s raised on valid input" % c["op"], crec, observed=r.get("errors", {}).get("c%d" % j), expected="a value",
+                         tags={"kind": "raises", "op": c["op"]})
+                continue
+            val = out[key]
+            behaves = set()
+            for ti, tup in enumerate(idx):
+                prs = tuple_pairs(c["op"], tup)
+                raw = [tuple(int(Xi[0][b][i]) - int(Xi[0][a][i]) for i in range(3)) for a, b in prs]
+                mics = [mic_far(rv, box) for rv in raw]
+                if not all(u for _, u in mics):
+                    continue
+                bv_m = [v for v, _ in mics]
+                bv_d = [mic_diag(rv, box) for rv in raw]
+                vm, vd = value_of(c["op"], bv_m), value_of(c["op"], bv_d)
+                if vm is None or vd is None:
+                    continue
+                bmin = math.sqrt(min(idot(b, b) for b in bv_m)) / unit
+                rawmax = math.sqrt(max(idot(rv, rv) for rv in raw)) / unit
+                tol = (C_DIH * EPS + 16 * EPS * (lmax + rawmax) / bmin) / min(vm[1], vd[1]) + 2 * EPS
+                if tol > 0.05:
+                    continue
+                got = float(val[0][ti])
+                discr = adiff(c["op"], vm[0], vd[0]) > 4 * tol
+                ctx.count({"c": crec, "t": tup}, nontrivial=True, bucket=bucket + ("/discriminating" if discr else ""))
+                is_m, is_d = adiff(c["op"], got, vm[0]) <= tol, adiff(c["op"], got, vd[0]) <= tol
+                if not is_m and (discr or adiff(c["op"], got, vm[0]) > 5 * tol):
+                    behaves.add("diagonal" if (is_d and discr) else "neither")
+                    bad_t = {"tuple": tup, "value": got, "minimum_image_value": vm[0], "diagonal_only_value": vd[0], "tol": tol}
+                elif discr:
+                    behaves.add("minimum image")
+                if discr and len(api_cases) < (24 if ctx.tier == "quick" else 240):
+                    api_cases.append((c["op"], opt, close, exact_ortho, Xi[0], box, tup, obs_of(c["op"], bv_m), obs_of(c["op"], bv_d), is_m, is_d))
+                    api_meta.append(crec)
+            if behaves - {"minimum image"}:
+                what = sorted(behaves - {"minimum image"})[0]
+                ctx.fail("compute_%s in a cell that is nearly but not exactly orthorhombic: %s" % (c["op"], {
+                    "diagonal": "the bond vectors are not minimum images (only the diagonal of the cell matrix is used)",
+                    "neither": "the value is not that of the minimum-image bond vectors"}[what]), crec,
+                    observed=dict(bad_t, cell_vectors=[[float(v) for v in row] for row in vec[0]], opt=opt), expected="the angle of the minimum-image bond vectors",
+                    tags={"kind": "near_orthorhombic_cell", "op": c["op"], "opt": bool(opt), "behaves": what,
+                          "allclose": close, "exactly_orthorhombic": exact_ortho,
+                          "explained_by": ("front_ortho_allclose" if (fr_read.get(c["op"], {}).get("ortho") == "OrthoAllclose" and opt and close
+                                                                      and not exact_ortho and what == "diagonal") else None)})
+    # ---- model evaluations (vm_compute on the description read from the source)
+    if val_cases:
+        bad, errs = ctx.coq_mismatches(["MD.Geom.Glue"], ("bool * Z * list (list Z)", "Z"), "Z.eqb", "validate_case", val_cases)
+        if errs:
+            ctx.break_("correspondence:coqc-evaluation", "\n".join(errs))
+        for i in bad:
+            c = cases[val_meta[i]]
+            ctx.break_("correspondence:front-validation-model-vs-implementation",
+                       "Glue.validate (from the source text) and the implementation disagree on %s" % json.dumps(c))
+        stats["validate_model_evaluations"] = stats.get("validate_model_evaluations", 0) + len(val_cases)
+    if path_cases:
+        lst = []
+        for text, impl_mic, all_ortho, opt in path_cases:
+            lst.append((text, "true" if impl_mic else "false"))
+        bad, errs = ctx.coq_mismatches(["MD.Geom.Glue"], ("bool * bool * Z * (bool * bool * bool)", "bool"), "Bool.eqb",
+                                       "(fun c => negb (Z.eqb (path_case c) 0))", lst)
+        if errs:
+            ctx.break_("correspondence:coqc-evaluation", "\n".join(errs))
+        for i in bad:
+            ctx.break_("correspondence:front-path-model-vs-implementation",
+                       "Glue.front_path (from the source text) and the implementation disagree on the treatment of the cell: %s" % json.dumps(path_meta[i]))
+        stats["path_model_evaluations"] = stats.get("path_model_evaluations", 0) + len(lst)
+    if api_cases:
+        lst, keep = [], []
+        for (op, opt, close, exact_ortho, Xf, box, tup, om, od, is_m, is_d) in api_cases:
+            if is_m == is_d:
+                continue
+            frames = clist([clist([coq_vec(tuple(int(w) for w in a)) for a in Xf])])
+            boxes = clist(["(mkbox %s %s %s)" % tuple(coq_vec(r) for r in box)])
+            case = "(%s, %s, %s, %s, %s, %s, %s)" % ("true" if op == "dihedrals" else "false", "true" if opt else "false", cz(0),
+                                                     "true" if close else "false", frames, boxes, clist([cz(a) for a in tup]))
+            exp = om if is_m else od
+            lst.append((case, "Some [(%s, %s, %s)]" % tuple(cz(v) for v in exp)))
+            keep.append(len(lst) - 1)
+        if lst:
+            bad, errs = ctx.coq_mismatches(["MD.PBC.Model", "MD.Geom.Periodic", "MD.Geom.Glue"], ("api_case_t", "option (list (Z * Z * Z))"),
+                                           "obs_list_eqb", "api_case", lst, shard=12)
+            if errs:
+                ctx.break_("correspondence:coqc-evaluation", "\n".join(errs))
+            elif bad:
+                ctx.break_("correspondence:front-api-model-vs-implementation",
+                           "Glue.compute_angles/compute_dihedrals (kernel chosen by the description read from the source) gives other bond "
+                           "vectors than the implementation on a nearly orthorhombic cell: %s" % json.dumps(api_meta[bad[0]]))
+            stats["api_model_evaluations_nearortho"] = stats.get("api_model_evaluations_nearortho", 0) + len(lst)
+
+
 def correspond(ctx):
+    fc = build_front_cases(ctx)
+    ctx.log("front-end cases:", len(fc))
+    for s in range(0, len(fc), 400):
+        run_front(ctx, fc[s:s + 400])
     g = build_geom_cases(ctx)
     ctx.log("geometry cases:", len(g))
     for s in range(0, len(g), 40):
@@ -1311,6 +1788,7 @@ def search(ctx, broken):
     for s in range(0, len(g), 40):
         run_geom(ctx, g[s:s + 40])
     run_topo(ctx, build_topo_cases(ctx)[:200])
+    run_front(ctx, build_front_cases(ctx))
 
 
 def replay(ctx, rec):
@@ -1319,11 +1797,13 @@ def replay(ctx, rec):
         translate(ctx)
     except Exception as e:
         ctx.log("translator degraded:", e)
-    ok, log = ctx.make(["Geom/Model.vo", "Geom/Topo.vo", "Geom/Periodic.vo"])
+    ok, log = ctx.make(["Geom/Model.vo", "Geom/Topo.vo", "Geom/Periodic.vo", "Geom/Glue.vo"])
     if not ok:
         ctx.break_("replay:model-build", log)
     c = rec["case"]
-    if "topo" in c:
+    if "front" in c:
+        run_front(ctx, [c])
+    elif "topo" in c:
         run_topo(ctx, [c])
     else:
         run_geom(ctx, [c])
